@@ -584,6 +584,74 @@ func c10Case(t *core.T, blk c10Block, tr c10Transport, kn string, n int, pat c10
 			}
 		}
 	}
+	// (b5) the same reference ciphertext with parts the XML-Encryption schema makes optional and another producer may write: the
+	// KeySize child of EncryptionMethod (in bits), Id / MimeType / Encoding / Recipient attributes, a KeyName beside the wrapped key,
+	// CarriedKeyName, trailing EncryptionProperties
+	if err == nil && p == "" && (n <= 1 || n == 16 || n == 33) {
+		for _, opt := range []string{"KeySize-in-bits", "Id-attributes", "MimeType+Encoding", "KeyName-after-the-key", "Recipient+CarriedKeyName", "EncryptionProperties", "all-of-them"} {
+			w := refEl.Copy()
+			all := opt == "all-of-them"
+			ems := findNS(w, xenc.NSXenc, "EncryptionMethod")
+			eks := findNS(w, xenc.NSXenc, "EncryptedKey")
+			if opt == "KeySize-in-bits" || all {
+				for _, em := range ems {
+					if em.Parent() == w {
+						ks := etree.NewElement("xenc:KeySize")
+						bits := 8 * xenc.KeySize(blk.alg)
+						if blk.alg == xenc.TDESCBC {
+							bits = 192
+						}
+						ks.SetText(fmt.Sprint(bits))
+						em.InsertChildAt(0, ks)
+					}
+				}
+			}
+			if opt == "Id-attributes" || all {
+				w.CreateAttr("Id", "_ed1")
+				for _, ek := range eks {
+					ek.CreateAttr("Id", "_ek1")
+				}
+			}
+			if opt == "MimeType+Encoding" || all {
+				w.CreateAttr("MimeType", "text/xml")
+				w.CreateAttr("Encoding", "http://www.w3.org/2000/09/xmldsig#base64")
+			}
+			if (opt == "KeyName-after-the-key" || all) && len(eks) > 0 {
+				kn := etree.NewElement("ds:KeyName")
+				kn.CreateAttr("xmlns:ds", xenc.NSDsig)
+				kn.SetText("sp-key-2024")
+				eks[0].Parent().AddChild(kn)
+			}
+			if (opt == "Recipient+CarriedKeyName" || all) && len(eks) > 0 {
+				eks[0].CreateAttr("Recipient", "https://sp.example.com/metadata")
+				eks[0].CreateElement("xenc:CarriedKeyName").SetText("session-key")
+			}
+			if opt == "EncryptionProperties" || all {
+				ep := w.CreateElement("xenc:EncryptionProperties").CreateElement("xenc:EncryptionProperty")
+				ep.CreateAttr("Target", "#_ed1")
+				ep.SetText("made-by other-producer/1.0")
+			}
+			if len(eks) == 0 && (opt == "KeyName-after-the-key" || opt == "Recipient+CarriedKeyName") {
+				continue
+			}
+			ww, werr := rewire(w)
+			if werr != nil {
+				continue
+			}
+			var got5 []byte
+			e5, p5 := guard(func() error { var e error; got5, e = xmlenc.Decrypt(dk, ww); return e })
+			t.Impl(1)
+			switch {
+			case p5 != "":
+				t.Fail(fk("lib-decrypts-ref", "panic-on-optional-schema-parts"), "Decrypt panicked on the ciphertext written with %s: %s", opt, p5)
+			case e5 != nil:
+				t.Fail(fk("lib-decrypts-ref", "error-on-optional-schema-parts"), "the same ciphertext written with %s is refused: %v", opt, e5)
+				t.Input("element-"+opt, string(ww.Tag))
+			case !bytes.Equal(got5, pt):
+				t.Fail(fk("lib-decrypts-ref", "mismatch-on-optional-schema-parts"), "ciphertext written with %s decrypts to different plaintext", opt)
+			}
+		}
+	}
 	t.Compared()
 	if t.Failed() {
 		t.Outcome("fails")
